@@ -20,6 +20,7 @@ extern "C" {
 #include "linkhash.h"
 #include "printbuf.h"
 #include "json_pointer.h"
+#include "json_patch.h"
 }
 
 namespace
@@ -48,7 +49,7 @@ struct C18 : Property
 	std::vector<std::string> probes() const override
 	{
 		return {"W1.last_put_by_non_creator_thread", "W1.switch_inside_put_before_destroy", "W1.container_children_destroyed_once", "W1.three_or_more_threads", "W1.thread_holds_child_of_shared_container", "W3.two_threads_past_unset_test_before_cas",
-		        "W3.seed_source_returned_minus_one", "W3.lost_cas_thread_uses_winner_seed", "W3.default_hash_selected_again_after_first_use", "W1.owner_replaces_userdata_before_its_put", "W4.threads_are_first_users_in_a_fresh_process", "W1.same_node_readded_to_private_container", "W1.deep_copy_of_shared_node", "W4.disjoint_trees_no_conflict", "sched.pct_policy", "sched.random_policy", "atomics.seen"};
+		        "W3.seed_source_returned_minus_one", "W3.lost_cas_thread_uses_winner_seed", "W3.default_hash_selected_again_after_first_use", "W1.owner_replaces_userdata_before_its_put", "W4.threads_are_first_users_in_a_fresh_process", "W1.same_node_readded_to_private_container", "W1.deep_copy_of_shared_node", "W1.shared_node_as_patch_value", "W1.patch_store_step_failed_reference_returned", "W4.disjoint_trees_no_conflict", "sched.pct_policy", "sched.random_policy", "atomics.seen"};
 	}
 	std::vector<std::string> probes_expected_zero() const override { return {"W1.switch_between_load_and_store_of_counter"}; }
 	std::vector<std::string> real_components() const override
@@ -105,6 +106,8 @@ struct C18 : Property
 					Op o;
 					o.kind = "t";
 					o.a = {t, (int64_t)r.below(6), (int64_t)r.below((uint64_t)nnodes)}; // action 0 get, 1 put, 2 read, 3 replace the userdata (designated owner only), 4 keep a reference in a thread-private object (re-add), 5 deep copy
+					if (o.a[1] == 2 && (i & 1))
+						o.a[1] = 6; // 6: the node travels as the "value" of a thread-private patch document (no extra draw: the other plans keep their shape)
 					p.ops.push_back(o);
 				}
 			}
@@ -159,7 +162,7 @@ struct C18 : Property
 		int minus_one_left = 0;
 		int threads_past_test = 0;
 		int nthreads = 1;
-		bool retagged = false, readded = false, copied = false;
+		bool retagged = false, readded = false, copied = false, patched = false, patch_failed = false;
 		std::vector<std::vector<int>> held; // per thread, per node: reference held by the thread's private container
 		std::vector<bool> in_priv;          // node was ever placed in a private container (it may die inside that container's teardown)
 	};
@@ -197,6 +200,7 @@ struct C18 : Property
 		int t = ((ThreadArg *)argp)->t;
 		struct json_object *priv = nullptr; // thread-private container (action 4)
 		std::vector<bool> priv_has(s.nodes.size(), false);
+		int patch_step = 0;
 		for (auto &step : s.script[(size_t)t])
 		{
 			int action = step[0];
@@ -255,6 +259,43 @@ struct C18 : Property
 				if (LIB(json_object_deep_copy(s.nodes[n], &cp, nullptr)) == 0 && cp)
 					LIBV(json_object_put(cp));
 				s.copied = true;
+			}
+			else if (action == 6)
+			{
+				if (s.owned[(size_t)t][n] <= 0)
+					continue;
+				// references taken and returned through a secondary entry point: the shared node is the "value" of a patch document
+				// that only this thread uses; `add`/`replace` acquire a reference for the target document and give it back when the
+				// store step fails (parent path missing).  The thread's own reference keeps the node alive throughout.
+				patch_step++;
+				bool fail = ((patch_step + (int)n + t) & 1) != 0;
+				bool repl = (patch_step & 2) != 0;
+				struct json_object *patch = LIB(json_object_new_array());
+				struct json_object *el = LIB(json_object_new_object());
+				struct json_object *base = LIB(json_tokener_parse(repl ? "{\"k\":1}" : "{}"));
+				if (!patch || !el || !base)
+				{
+					s.errors.push_back("C18:harness-allocation|could not build the patch document");
+					continue;
+				}
+				LIB(json_object_object_add(el, "op", json_object_new_string(repl ? "replace" : "add")));
+				LIB(json_object_object_add(el, "path", json_object_new_string(fail ? (repl ? "/k/x" : "/missing/x") : "/k")));
+				LIB(json_object_object_add(el, "value", json_object_get(s.nodes[n])));
+				LIB(json_object_array_add(patch, el));
+				struct json_patch_error perr;
+				memset(&perr, 0, sizeof perr);
+				int rc = LIB(json_patch_apply(nullptr, patch, &base, &perr));
+				if (fail ? rc >= 0 : rc != 0)
+					s.errors.push_back(std::string("C18:patch-result|json_patch_apply ") + (repl ? "replace" : "add") + " with a shared node as value returned " + std::to_string(rc) +
+					                   (fail ? " although the target path cannot be stored to" : " although the target path exists"));
+				else if (!fail && LIB(json_object_object_get(base, "k")) != s.nodes[n])
+					s.errors.push_back("C18:patch-result|after a successful patch the target document does not hold the shared node");
+				if (base)
+					LIBV(json_object_put(base));
+				LIBV(json_object_put(patch));
+				s.patched = true;
+				if (fail)
+					s.patch_failed = true;
 			}
 			else if (action == 3 && (int)(n % (size_t)s.nthreads) == t)
 			{
@@ -550,7 +591,7 @@ struct C18 : Property
 						s.owned[(size_t)t][n] = (int)((op.arg(1 + (n % np)) + (int64_t)n + t) % 2); // some threads also hold a child
 				}
 				else if (op.kind == "t")
-					s.script[(size_t)t].push_back({(int)(op.arg(1) % 6), (int)(op.arg(2) % (int64_t)nn)});
+					s.script[(size_t)t].push_back({(int)(op.arg(1) % 7), (int)(op.arg(2) % (int64_t)nn)});
 			}
 			// every parent must be owned by somebody: thread 0 takes one reference of otherwise unowned parents
 			for (size_t n = 0; n < np; n++)
@@ -679,6 +720,10 @@ struct C18 : Property
 				ctx.probe("W1.same_node_readded_to_private_container");
 			if (s.copied)
 				ctx.probe("W1.deep_copy_of_shared_node");
+			if (s.patched)
+				ctx.probe("W1.shared_node_as_patch_value");
+			if (s.patch_failed)
+				ctx.probe("W1.patch_store_step_failed_reference_returned");
 			ctx.cover("W1|threads" + std::to_string(nthreads) + "|nodes" + std::to_string(s.nodes.size()));
 		}
 		else if (workload == 4)
